@@ -322,12 +322,7 @@ class Session:
                 self.outcomes.append("skip")
                 self.stats["skipped_ambiguous"] += 1
                 return
-            # with two inputs the unchanged library handles the collapse
-            # consistently (one input remains) and everything is judged; with
-            # three or more it is the known finding D23
-            mx = m.mux()
-            if mx is not None and len(m.parents[mx]) >= 3:
-                self.collapsed = True
+            # two inputs collapsing onto one parent: one link remains (D23, fixed)
             self.stats["fault_fired:mux_inputs_collapsed"] += 1
         reason = self._must_reject(op)
         before_full = None
